@@ -15,9 +15,11 @@ def jobs(tier, seed):
     out = []
     for j in [x for x in c01.jobs(tier, seed) if x.get('name') != 'hist']:
         if j['cfg']['symnames'] or j['cfg']['pad'] >= 0: continue
+        if tier == 'quick' and is_sweep(j): continue
         cfg = dict(j['cfg']); cfg['source'] = 0
         out.append({'entry': 'h_c14', 'harness': 'h_c01.cpp', 'cfg': cfg, 'name': 'api-built'})
     for j in c02.jobs(tier, seed):
+        if tier == 'quick' and is_sweep(j): continue
         j = dict(j); j['entry'] = 'h_c14'; j['harness'] = 'h_c01.cpp'; j['cfg'] = {'source': 1}; j['variant'] = j['name']; j['name'] = 'loaded'
         out.append(j)
     out.append({'entry': 'h_c14', 'harness': 'h_c01.cpp', 'cfg': {'source': 1}, 'name': 'loaded', 'variant': 'two-free-rates', 'shape': dict(P=1, C=0, sub=0, F=1), 'lay': {},
